@@ -96,6 +96,15 @@ func VerifC15_IstioVirtualServiceSplit() {
 		kinds = append(kinds, k)
 	}
 	spec := map[string]interface{}{"hosts": []interface{}{"*"}, "http": rules}
+	// optionally one tcp and / or tls section with a single rule of the same five kinds
+	l4 := map[string]int{}
+	for _, proto := range []string{"tcp", "tls"} {
+		if verifrt.Bool(proto + ".present") {
+			rule, k := c15Rule(proto + ".rule")
+			spec[proto] = []interface{}{rule}
+			l4[proto] = k
+		}
+	}
 	before := util.DumpJSON(spec)
 	strategy, w := c15Traffic("step")
 	out, err := r.executeLuaForCanary(Data{Spec: spec}, strategy, script)
@@ -124,6 +133,22 @@ func VerifC15_IstioVirtualServiceSplit() {
 			verifrt.Assert(c15Get(after, "http", idx, "route", "0", "weight") == c15Get(before, "http", idx, "route", "0", "weight"), "C15.istio.otherWeightKept")
 			verifrt.Assert(c15Get(after, "http", idx, "route", "1") == "<absent>", "C15.istio.otherNotSplit")
 			verifrt.Assert(c15Get(after, "http", idx, "match", "0", "uri", "prefix") == c15Get(before, "http", idx, "match", "0", "uri", "prefix"), "C15.istio.otherMatchKept")
+		}
+	}
+	for _, proto := range []string{"tcp", "tls"} {
+		k, present := l4[proto]
+		if !present {
+			verifrt.Assert(c15Get(after, proto) == "<absent>", "C15.istio.l4.sectionNotInvented")
+			continue
+		}
+		if k == 0 || k == 1 {
+			verifrt.Assert(c15Get(after, proto, "0", "route", "0", "weight") == fmt.Sprintf("%d", stableW), "C15.istio.l4.stableWeight")
+			verifrt.Assert(c15Get(after, proto, "0", "route", "1", "destination", "host") == c15Canary, "C15.istio.l4.canaryHost")
+			verifrt.Assert(c15Get(after, proto, "0", "route", "1", "weight") == fmt.Sprintf("%d", canaryW), "C15.istio.l4.canaryWeight")
+			verifrt.Assert(c15Get(after, proto, "0", "route", "2") == "<absent>", "C15.istio.l4.twoDestinations")
+		} else {
+			verifrt.Assert(c15Get(after, proto, "0", "route", "0", "weight") == c15Get(before, proto, "0", "route", "0", "weight"), "C15.istio.l4.otherWeightKept")
+			verifrt.Assert(c15Get(after, proto, "0", "route", "1") == "<absent>", "C15.istio.l4.otherNotSplit")
 		}
 	}
 	verifrt.Assert(c15Get(after, "http", fmt.Sprintf("%d", n)) == "<absent>", "C15.istio.ruleCount")
